@@ -147,7 +147,7 @@ func (m *Model) baseValue(sn any, p Pos, depth int) any {
 func num(s string) any { return json.Number(s) }
 
 func (m *Model) cands(sn any, p Pos, depth int) []cand {
-	if depth > 8 {
+	if depth > 16 {
 		return []cand{{v: nil, class: "depth"}}
 	}
 	if b, ok := sn.(bool); ok {
@@ -630,6 +630,9 @@ func (m *Model) objectCands(s S, p Pos, depth int) []cand {
 	}
 	base := map[string]any{}
 	for _, x := range pcs {
+		if depth > 9 && !reqd[x.name] {
+			continue // deep inside a recursive schema: the base document stops at optional properties
+		}
 		base[x.name] = jsonv.Clone(x.cs[0].v)
 	}
 	out := []cand{{v: base, class: "obj:base"}}
